@@ -183,6 +183,8 @@ pub struct HistSpec {
     pub max_executions: u64,
     /// also park the worker inside its cache write-lock section (lock-window mode)
     pub lock_window: bool,
+    /// also enumerate crashes during the recovery of every crash image
+    pub nested: bool,
 }
 
 fn svio(spec: &HistSpec, key: &str, what: String, extra: Value) -> Violation {
@@ -463,6 +465,8 @@ pub struct SchedStats {
     pub caps_hit: u64,
     pub degraded: u64,
     pub image_cap_hit: u64,
+    pub nested_recoveries_traced: u64,
+    pub nested_images: u64,
     pub outcomes: BTreeMap<String, u64>,
     pub max_schedule_len: usize,
 }
@@ -476,6 +480,7 @@ impl SchedStats {
             "recoveries": self.recoveries, "faults_injected": self.faults_injected, "acks_checked": self.acks_checked,
             "unlinks_checked": self.unlinks_checked, "reads_checked": self.reads_checked, "caps_hit": self.caps_hit,
             "degraded": self.degraded, "image_cap_hit": self.image_cap_hit, "outcomes": self.outcomes,
+            "recoveries_traced_for_second_crash": self.nested_recoveries_traced, "second_level_crash_images": self.nested_images,
             "max_schedule_len": self.max_schedule_len,
         })
     }
@@ -498,6 +503,8 @@ impl SchedStats {
         self.caps_hit += g("caps_hit");
         self.degraded += g("degraded");
         self.image_cap_hit += g("image_cap_hit");
+        self.nested_recoveries_traced += g("recoveries_traced_for_second_crash");
+        self.nested_images += g("second_level_crash_images");
         self.max_schedule_len = self.max_schedule_len.max(g("max_schedule_len") as usize);
         if let Some(o) = v["outcomes"].as_object() {
             for (k, n) in o {
@@ -521,6 +528,7 @@ pub struct Recovered {
 pub struct HistCtx {
     pub seen_states: HashSet<u64>,
     pub images: HashMap<u64, Recovered>,
+    pub nested_done: HashSet<u64>,
 }
 
 pub struct Machinery(pub String);
@@ -603,7 +611,7 @@ fn run_once(spec: &HistSpec, pl: &Arc<Plan>, chooser: &mut dyn sched::Chooser, f
 /// Explores every schedule (and fault placement) of one history.
 pub fn explore_history(spec: &HistSpec, vios: &mut Vec<Violation>, stats: &mut SchedStats, wall_deadline: Instant) -> Result<(), Machinery> {
     let pl = Arc::new(plan(&spec.hist, &spec.cfg));
-    let mut ctx = HistCtx { seen_states: HashSet::new(), images: HashMap::new() };
+    let mut ctx = HistCtx { seen_states: HashSet::new(), images: HashMap::new(), nested_done: HashSet::new() };
     let mut dfs = Dfs::new(spec.max_faults, spec.fault_policy);
     let faults_possible = spec.max_faults > 0 && spec.fault_policy != FaultPolicy::None;
     stats.histories += 1;
@@ -1064,7 +1072,32 @@ fn crash_oracle(
     }
     for img in images {
         stats.crash_images += 1;
-        let rec = recover(spec, &img, ctx, stats, spec.o_c05);
+        judge_image(spec, pl, &img, acked_a, ctx, vios, stats, dfs, step_no, "");
+        // crashes during recovery itself: second-level images
+        if spec.nested {
+            let h = shadow::image_hash(&img);
+            if ctx.nested_done.insert(h) {
+                nested_crash(spec, pl, &img, acked_a, ctx, vios, stats, dfs, step_no);
+            }
+        }
+    }
+}
+
+/// One post-crash image: recover it with the real store and apply the C03/C05 oracles.
+#[allow(clippy::too_many_arguments)]
+fn judge_image(
+    spec: &HistSpec,
+    pl: &Plan,
+    img: &Vec<(String, Vec<u8>)>,
+    acked_a: usize,
+    ctx: &mut HistCtx,
+    vios: &mut Vec<Violation>,
+    stats: &mut SchedStats,
+    dfs: &Dfs,
+    step_no: usize,
+    level: &str,
+) {
+        let rec = recover(spec, img, ctx, stats, spec.o_c05);
         let describe = |img: &Vec<(String, Vec<u8>)>| -> String {
             img.iter().map(|(n, b)| format!("{}:{}", n, b.len())).collect::<Vec<_>>().join(",")
         };
@@ -1086,11 +1119,11 @@ fn crash_oracle(
                             format!(
                                 "crash at step {} (image {}): recovered state {:?} entries {:?} is not the result of any prefix of the writes issued",
                                 step_no,
-                                describe(&img),
+                                format!("{}{}", level, describe(img)),
                                 state,
                                 entries
                             ),
-                            json!({"schedule": schedule_json(dfs), "crash_step": step_no, "image": describe(&img)}),
+                            json!({"schedule": schedule_json(dfs), "crash_step": step_no, "image": format!("{}{}", level, describe(img))}),
                         )),
                         Some(j) if j < acked_a => vios.push(svio(
                             spec,
@@ -1098,11 +1131,11 @@ fn crash_oracle(
                             format!(
                                 "crash at step {} (image {}): recovered the prefix of {} writes, but {} writes were issued before an acknowledged flush",
                                 step_no,
-                                describe(&img),
+                                format!("{}{}", level, describe(img)),
                                 j,
                                 acked_a
                             ),
-                            json!({"schedule": schedule_json(dfs), "crash_step": step_no, "image": describe(&img)}),
+                            json!({"schedule": schedule_json(dfs), "crash_step": step_no, "image": format!("{}{}", level, describe(img))}),
                         )),
                         _ => {}
                     }
@@ -1112,8 +1145,8 @@ fn crash_oracle(
                         vios.push(svio(
                             spec,
                             "recovered-store-not-usable",
-                            format!("crash at step {} (image {}): {}", step_no, describe(&img), e),
-                            json!({"schedule": schedule_json(dfs), "crash_step": step_no, "image": describe(&img)}),
+                            format!("crash at step {} (image {}): {}", step_no, format!("{}{}", level, describe(img)), e),
+                            json!({"schedule": schedule_json(dfs), "crash_step": step_no, "image": format!("{}{}", level, describe(img))}),
                         ));
                     }
                     if let Err(e) = &rec.usable_tiny {
@@ -1137,8 +1170,8 @@ fn crash_oracle(
                         vios.push(svio(
                             spec,
                             key,
-                            format!("crash at step {} (image {}), recovered with default chunk limits and a zero-size cache: {}", step_no, describe(&img), e),
-                            json!({"schedule": schedule_json(dfs), "crash_step": step_no, "image": describe(&img)}),
+                            format!("crash at step {} (image {}), recovered with default chunk limits and a zero-size cache: {}", step_no, format!("{}{}", level, describe(img)), e),
+                            json!({"schedule": schedule_json(dfs), "crash_step": step_no, "image": format!("{}{}", level, describe(img))}),
                         ));
                     }
                 }
@@ -1146,7 +1179,7 @@ fn crash_oracle(
             Opened::Err(e) => {
                 stats.outcome("recovery-refused");
                 if spec.o_c05 {
-                    let key = if e.contains("Gap between chunks") && image_has_rotation_gap(&img) {
+                    let key = if e.contains("Gap between chunks") && image_has_rotation_gap(img) {
                         "F5:gap-before-chunk-created-by-unfinished-rotation"
                     } else {
                         "recovery-refused"
@@ -1154,8 +1187,8 @@ fn crash_oracle(
                     vios.push(svio(
                         spec,
                         key,
-                        format!("crash at step {} (image {}): open refused: {}", step_no, describe(&img), e),
-                        json!({"schedule": schedule_json(dfs), "crash_step": step_no, "image": describe(&img)}),
+                        format!("crash at step {} (image {}): open refused: {}", step_no, format!("{}{}", level, describe(img)), e),
+                        json!({"schedule": schedule_json(dfs), "crash_step": step_no, "image": format!("{}{}", level, describe(img))}),
                     ));
                 }
             }
@@ -1165,11 +1198,101 @@ fn crash_oracle(
                     vios.push(svio(
                         spec,
                         "recovery-panics",
-                        format!("crash at step {} (image {}): open panicked: {}", step_no, describe(&img), e),
-                        json!({"schedule": schedule_json(dfs), "crash_step": step_no, "image": describe(&img)}),
+                        format!("crash at step {} (image {}): open panicked: {}", step_no, format!("{}{}", level, describe(img)), e),
+                        json!({"schedule": schedule_json(dfs), "crash_step": step_no, "image": format!("{}{}", level, describe(img))}),
                     ));
                 }
             }
+        }
+}
+
+/// Always takes the first enabled transition (single managed thread + its worker).
+struct FirstEnabled;
+impl sched::Chooser for FirstEnabled {
+    fn choose(&mut self, _step: usize, _enabled: &[sched::Enabled]) -> Option<usize> {
+        Some(0)
+    }
+}
+
+/// Crash during recovery: recover `img` under the tracer, and at every
+/// file-system call recovery issues enumerate the second-level crash images
+/// (what survived the first crash is durable; what recovery wrote since is not
+/// unless it synced it) and judge them like first-level images.
+#[allow(clippy::too_many_arguments)]
+fn nested_crash(
+    spec: &HistSpec,
+    pl: &Plan,
+    img: &Vec<(String, Vec<u8>)>,
+    acked_a: usize,
+    ctx: &mut HistCtx,
+    vios: &mut Vec<Violation>,
+    stats: &mut SchedStats,
+    dfs: &Dfs,
+    step_no: usize,
+) {
+    let dir = imagex::materialize(img);
+    let cfg = spec.cfg;
+    let d = dir.path.clone();
+    let body: sched::ThreadBody = Box::new(move || {
+        sched::op_gate("recover", OpGate::Always, sched::R_ALL);
+        sched::set_extra_bits(sched::R_ALL);
+        let r = open_store(&d, &cfg);
+        let inst = sched::current_inst();
+        drop(r);
+        sched::mark_sender_dropped(inst);
+        sched::set_extra_bits(0);
+    });
+    sched::set_lock_window(false);
+    let res = sched::run_execution(vec![(ThreadKind::Caller, body)], &mut FirstEnabled);
+    sched::set_lock_window(spec.lock_window);
+    if res.hung.is_some() || res.deadlock.is_some() {
+        return;
+    }
+    stats.nested_recoveries_traced += 1;
+    let mut fs = ShadowFs::default();
+    for (n, b) in img {
+        fs.files.insert(n.clone(), shadow::SFile { content: b.clone(), durable: b.len() });
+    }
+    let mut seen_local: HashSet<u64> = HashSet::new();
+    for ev in &res.trace {
+        let Event::Fs { call, ret, .. } = ev else { continue };
+        if !call.name.ends_with(".wal") {
+            continue;
+        }
+        let mutating = matches!(call.kind, FsKind::Write | FsKind::Ftruncate | FsKind::Unlink | FsKind::Create | FsKind::Fsync | FsKind::Fdatasync);
+        if !mutating {
+            continue;
+        }
+        // state just before this call, with the call in flight if it is a write
+        let mut per_file: Vec<(String, Vec<Vec<u8>>)> = vec![];
+        for (name, f) in &fs.files {
+            let mut full = f.content.clone();
+            if call.kind == FsKind::Write && &call.name == name && call.arg.max(0) as usize == full.len() {
+                full.extend_from_slice(&call.data);
+            }
+            per_file.push((name.clone(), shadow::file_variants(&full, f.durable, false)));
+        }
+        let (images, _) = shadow::cross(&per_file, 400);
+        for im2 in images {
+            let h = shadow::image_hash(&im2);
+            if !seen_local.insert(h) {
+                continue;
+            }
+            stats.nested_images += 1;
+            judge_image(spec, pl, &im2, acked_a, ctx, vios, stats, dfs, step_no, "second crash during recovery; ");
+        }
+        fs.apply(call, *ret);
+    }
+    // the state after recovery completed (everything it wrote, unsynced parts cut)
+    let mut per_file: Vec<(String, Vec<Vec<u8>>)> = vec![];
+    for (name, f) in &fs.files {
+        per_file.push((name.clone(), shadow::file_variants(&f.content, f.durable, false)));
+    }
+    let (images, _) = shadow::cross(&per_file, 400);
+    for im2 in images {
+        if seen_local.insert(shadow::image_hash(&im2)) {
+            stats.nested_images += 1;
+            judge_image(spec, pl, &im2, acked_a, ctx, vios, stats, dfs, step_no, "second crash after recovery; ");
         }
     }
 }
@@ -1465,6 +1588,7 @@ pub fn replay(prop: &str, r: &Value) -> i32 {
         o_c15: prop == "C15",
         max_executions: 1,
         lock_window: r["lock_window"].as_bool().unwrap_or(false),
+        nested: false,
     };
     let schedule: Vec<(usize, String)> = r["extra"]["schedule"]
         .as_array()
@@ -1485,7 +1609,7 @@ pub fn replay(prop: &str, r: &Value) -> i32 {
         println!("REPLAY property={} the recorded schedule is no longer feasible on this tree: {}", prop, d);
         return 2;
     }
-    let mut ctx = HistCtx { seen_states: HashSet::new(), images: HashMap::new() };
+    let mut ctx = HistCtx { seen_states: HashSet::new(), images: HashMap::new(), nested_done: HashSet::new() };
     let mut vios = vec![];
     let mut stats = SchedStats::default();
     // the analysis wants a Dfs for schedule text; build one that reports the replayed schedule
